@@ -3,6 +3,7 @@ package main
 import (
 	"flag"
 	"fmt"
+	"go/ast"
 	"go/constant"
 	"go/types"
 	"os"
@@ -15,6 +16,7 @@ var checkers = map[string]func(r *Report){
 	"C01": checkC01,
 	"C02": checkC02,
 	"C03": checkC03,
+	"C04": checkC04,
 	"C05": checkC05,
 	"C06": checkC06,
 	"C07": checkC07,
@@ -78,6 +80,39 @@ func main() {
 					}
 				}
 			}
+		}
+	case "debug-scc":
+		p := loadResolve("", true)
+		for _, c := range recursiveSCCs(p) {
+			fmt.Println(len(c), c)
+		}
+	case "debug-bounds":
+		if len(os.Args) > 2 {
+			repoRoot = os.Args[2]
+		}
+		p := loadResolve("", false)
+		sites, err := unprovenBounds(p)
+		if err != nil {
+			fatalf("%v", err)
+		}
+		sites = locateBounds(p, sites)
+		sortSites(sites)
+		pms := map[*ast.File]parentMap{}
+		for _, s := range sites {
+			var fs []string
+			if s.node != nil {
+				for f := range p.fileOf {
+					if f.Pos() <= s.node.Pos() && s.node.Pos() <= f.End() {
+						if pms[f] == nil {
+							pms[f] = buildParents(f)
+						}
+						for _, g := range guardFactsAt(s.node, pms[f]) {
+							fs = append(fs, g.text)
+						}
+					}
+				}
+			}
+			fmt.Printf("%s:%d:%d\t%s\t%s\t%s\t%s\n", strings.TrimPrefix(s.file, repoRoot+"/"), s.line, s.col, s.kind, s.fn, s.expr, strings.Join(fs, " ; "))
 		}
 	case "check":
 		fs := flag.NewFlagSet("check", flag.ExitOnError)
